@@ -258,16 +258,17 @@ func parseRequestBody(c *Client, r *Request) (err error) {
 		r.GetBody = nil
 		return
 	}
+	// client-level form data applies to multipart and url-encoded forms alike
+	if len(c.FormData) > 0 && r.RetryAttempt <= 0 { // merge client-level form data once, not again on every retry attempt
+		r.SetFormDataFromValues(c.FormData)
+	}
+
 	// handle multipart
 	if r.isMultiPart {
 		return handleMultiPart(c, r)
 	}
 
 	// handle form data
-	if len(c.FormData) > 0 && r.RetryAttempt <= 0 { // merge client-level form data once, not again on every retry attempt
-		r.SetFormDataFromValues(c.FormData)
-	}
-
 	if len(r.FormData) > 0 {
 		handleFormData(r)
 		return
